@@ -195,6 +195,28 @@ def chk_to_bfs(case, acc, seed):
         frontier = nxt
     acc.states += len(seen)
     acc.cls('to-states', len(seen))
+    # several units in one call are applied in order: to(a, b) == to(a); to(b)   (from the start state, all ordered pairs)
+    short = ['m', 'um', 'nm', 'angstrom'] + FNAMES
+    for a in short:
+        for b in short:
+            if vu is None and (a in FNAMES or b in FNAMES):
+                continue
+            acc.transitions += 1
+            one, two = s0.copy(), s0.copy()
+            sub = dict(case, seq=[[a, b]])
+            try:
+                one.to(a, b)
+                two.to(a); two.to(b)
+            except Exception as e:
+                acc.violation(f'to:pair:raises:{type(e).__name__}', sub, repr(e))
+                continue
+            g1, g2 = si(one), si(two)
+            if (one.waveunit, one.valueunit) != (two.waveunit, two.valueunit) or not (np.allclose(g1[0], g2[0], rtol=1e-12) and np.allclose(g1[1], g2[1], rtol=1e-10)) \
+                    or not (np.allclose(g1[0], ref[0], rtol=1e-10) and np.allclose(g1[1], ref[1], rtol=1e-9)):
+                kind = 'wave-then-flux' if (a not in FNAMES and b in FNAMES) else ('flux-then-wave' if (a in FNAMES and b not in FNAMES) else 'same-kind')
+                acc.violation(f'to:pair:{kind}', sub, f'to({a!r}, {b!r}) differs from to({a!r}) followed by to({b!r}) / from the original physical spectrum '
+                                                     f'(value ratio {g1[1][0] / ref[1][0]:.6g})')
+            acc.cls('to-pairs')
 
 
 # ---- Planck -------------------------------------------------------------------------------------------------
@@ -333,7 +355,7 @@ def run(tier, seed, acc, procs=None):
         'bounds': {'to_depth': depth, 'temperatures': [300, 3000, 5778, 20000], 'wavelength_names': WNAMES, 'flux_names': FNAMES},
         'assumptions': ["the library's own values of h, c, k are used (the statement is about consistency)",
                         'reference Planck function in longdouble with expm1'],
-        'require': {'wave-triples': 343, 'flux-triples': 27, 'planck': 80, 'wien-sb': 16, 'vega': 12, 'refused': 10},
+        'require': {'wave-triples': 343, 'flux-triples': 27, 'planck': 80, 'wien-sb': 16, 'vega': 12, 'refused': 10, 'to-pairs': 100},
     }
 
 
